@@ -9,11 +9,14 @@
        about later calls (C01, C07) applies after a warm start as well.
      * utils.argmin (which picks the donor) returns a key attaining the minimum distance, the first such key in
        trained-arm order (under the order laws);
-    ..._partial: monotonicity
+     * repeating the call (same features, same quantile) changes nothing: the second call finds no (arm, donor) pair and
+       returns the state it was given (cf_warm_start_idempotent; Softmax re-derives the same shares);
+     * the set of pairs grows with the threshold (the threshold is np.quantile of the closest distances at q);
+    ..._partial: monotonicity of np.quantile itself in q,
     in the quantile and idempotence are checked by the warm-start relation with an independently recomputed
     threshold; linear policies by correspondence. *)
 From Coq Require Import List ZArith Bool Arith QArith Qcanon Permutation.
-From MW Require Import Num Assoc AssocFacts Rng Par CF CFInv CFClean CFForget CFSpec Matrix Lin Warm WarmInv Nbr NbrFacts NbrIndep LshFacts Clu Tree CellFacts Mab FacadeCF FacadeArms MoreFacts NumLaws CFAlg Sim Extra QcInst OrderFacts ExpIrrel LinInv FacadeLin LpInv NbrInv CluTreeInv FacadeAll ToyFacts.
+From MW Require Import Num Assoc AssocFacts Rng Par CF CFInv CFClean CFForget CFSpec Matrix Lin Warm WarmInv Nbr NbrFacts NbrIndep LshFacts Clu Tree CellFacts Mab FacadeCF FacadeArms MoreFacts NumLaws CFAlg Sim Extra QcInst OrderFacts ExpIrrel LinInv FacadeLin LpInv NbrInv CluTreeInv FacadeAll ToyFacts C09All C10All LinForget LinSim MatrixFacts GaussJordan LinSpec NbrIndepGen CluIndep C17Lin WarmIdem.
 Import ListNotations.
 
 Theorem C13_pairs_are_cold_arm_trained_donor_within_threshold :
@@ -58,6 +61,36 @@ Theorem C13_donor_is_the_nearest_trained_arm :
   exists v : R, In (a, v) d /\ (forall kv : A * R, In kv d -> leb N v (snd kv) = true).
 Proof. exact @argmin_first_is_minimal. Qed.
 Print Assumptions C13_donor_is_the_nearest_trained_arm.
+
+Theorem C13_repeating_the_call_changes_nothing :
+  forall (R A : Type) (N : Num R) (aeqb : A -> A -> bool),
+  (forall x y : A, aeqb x y = true <-> x = y) ->
+  forall (s s1 : (@cf R A)) (keys : list A) (raw : A -> A -> R) (q : R),
+  keys_ok s ->
+  cf_warm_start N aeqb s keys raw q = Some s1 -> cf_warm_start N aeqb s1 keys raw q = Some s1.
+Proof. exact @cf_warm_start_idempotent. Qed.
+Print Assumptions C13_repeating_the_call_changes_nothing.
+
+Theorem C13_second_call_finds_no_pairs :
+  forall (R A : Type) (N : Num R) (aeqb : A -> A -> bool),
+  (forall x y : A, aeqb x y = true <-> x = y) ->
+  forall (s s1 : (@cf R A)) (keys : list A) (raw : A -> A -> R) (q thr : R),
+  keys_ok s ->
+  c_kind s <> KRandom ->
+  distance_threshold N (distance_table N aeqb keys raw) q = Some thr ->
+  cf_warm_start N aeqb s keys raw q = Some s1 ->
+  cold_to_warm N aeqb s1 (distance_table N aeqb keys raw) thr = [].
+Proof. exact @warm_start_second_call_finds_no_pairs. Qed.
+Print Assumptions C13_second_call_finds_no_pairs.
+
+Theorem C13_pairs_grow_with_the_threshold :
+  forall (R A : Type) (N : Num R) (aeqb : A -> A -> bool),
+  NumLaws N ->
+  forall (trained cold : list A) (dt : list (A * list (A * R))) (thr thr' : R),
+  leb N thr thr' = true ->
+  incl (cold_to_warm_gen N aeqb trained cold dt thr) (cold_to_warm_gen N aeqb trained cold dt thr').
+Proof. exact @warm_pairs_monotone_in_threshold. Qed.
+Print Assumptions C13_pairs_grow_with_the_threshold.
 
 Theorem C13_invariant_survives_warm_start_linear :
   forall (R A G : Type) (N : Num R) (aeqb : A -> A -> bool),
